@@ -69,6 +69,8 @@ func runE2E(bin, tmp, fakeDir, repoSum string, seed int64, count int, pkgs map[s
 		setFlag("disable", fl.Disable)
 		setFlag("go", fl.Go)
 		setFlag("debug-enable-disable", "false")
+		setFlag("debug-group", "")
+		analyzer.ForceNewEngine = false
 		analyzer.VerifResetGlobals()
 		for _, pn := range pkgNames {
 			p := pkgs[pn]
